@@ -76,5 +76,5 @@ package format
 //@   loop 1 iteration-ensures [upper-case-letter-starts-a-word] r != 95 && upper ==> calls(Reset) == 1 && calls(WriteRune) == 1 && arg(WriteRune, 1) == r && before(Reset, WriteRune) && calls(Len) == 1 && (len(list) == at_head(len(list)) + 1) == (ret(Len) > 0) && (len(list) == at_head(len(list)) || len(list) == at_head(len(list)) + 1)
 //@   loop 1 iteration-ensures [other-rune-continues-the-word] r != 95 && !upper ==> calls(Reset) == 0 && calls(WriteRune) == 1 && arg(WriteRune, 1) == r && len(list) == at_head(len(list))
 //@   loop 1 iteration-ensures [emitted-word-is-the-buffer] len(list) == at_head(len(list)) + 1 ==> list[at_head(len(list))] == ret(String) && before(String, Reset)
-//@   ensures [ends-at-eof] result1 == nil ==> ret(ReadRune, 2) == io.EOF && calls(Len) == 1 && (ret(Len) > 0 ==> calls(String) == 1 && len(result0) >= 1 && result0[len(result0) - 1] == ret(String))
-//@   ensures [read-error-returned] result1 != nil ==> result1 == ret(ReadRune, 2) && result0 == nil
+//@   ensures [ends-at-eof] result1 == nil ==> tail(ret(ReadRune, 2) == io.EOF && calls(Len) == 1 && (ret(Len) > 0 ==> calls(String) == 1 && len(result0) >= 1 && result0[len(result0) - 1] == ret(String)))
+//@   ensures [read-error-returned] result1 != nil ==> result1 == ret(ReadRune, 2, last) && result0 == nil
